@@ -32,13 +32,21 @@ def gen_stream(rng, name, direction, nframes):
         m = gen(rng)
         if not in_range(direction, m) or not devinfo_fits(m):
             continue
-        if m['t'] in ('readFifo', 'readFileRecord') and direction == 'resp':
-            continue
+        relative = m['t'] in ('readFifo', 'readFileRecord') and direction == 'resp'
         if m['t'] == 'readDeviceInfo' and direction == 'resp' and name == 'rtu' and m['number_of_objects'] != len(m['information']):
             continue
         tid = rng.randrange(65536)
         f = framelib.real_build(name, direction, m, uid, tid, 0)
-        if isinstance(f, dict) or len(f) > 300 or not frame_ok(name, direction, m, f):
+        if isinstance(f, dict) or len(f) > 300:
+            continue
+        if relative:
+            # classes whose codec is a recorded finding (C01/C02): what a whole frame delivers is not the message that was
+            # built, but the chunking property is relative to one-frame-per-read, so they belong in the streams as long as
+            # the whole frame is delivered at all
+            whole = framelib.real_feed(name, 'client', [uid], False, [f])
+            if framelib.raised(whole) or len(framelib.deliveries(whole)) != 1 or whole[-1]['buffered']:
+                continue
+        elif not frame_ok(name, direction, m, f):
             continue
         frames.append(f)
         msgs.append(m)
@@ -47,7 +55,7 @@ def gen_stream(rng, name, direction, nframes):
 
 DIRECTED = {'req': ['writeRegisters', 'writeCoils', 'readWrite', 'writeFileRecord', 'readFileRecord', 'readExceptionStatus', 'writeRegister',
                     'getCommEventCounter', 'readHolding', 'getCommEventLog', 'readCoils', 'reportSlaveId'],   # the shortest requests too, one of them last
-            'resp': ['readDeviceInfo', 'readHolding', 'readCoils', 'getCommEventLog', 'reportSlaveId', 'writeFileRecord', 'exception']}
+            'resp': ['readDeviceInfo', 'readHolding', 'readFifo', 'readCoils', 'getCommEventLog', 'reportSlaveId', 'writeFileRecord', 'readFifo', 'exception']}
 
 
 def directed_stream(rng, name, direction):
@@ -62,7 +70,14 @@ def directed_stream(rng, name, direction):
             if not in_range(direction, m) or not devinfo_fits(m):
                 continue
             f = framelib.real_build(name, direction, m, uid, rng.randrange(65536), 0)
-            if isinstance(f, dict) or len(f) > 120 or not frame_ok(name, direction, m, f):
+            if isinstance(f, dict) or len(f) > 120:
+                continue
+            if t == 'readFifo' and direction == 'resp':
+                # (codec finding: relative to what one frame per read delivers, see gen_stream)
+                whole = framelib.real_feed(name, 'client', [uid], False, [f])
+                if framelib.raised(whole) or len(framelib.deliveries(whole)) != 1 or whole[-1]['buffered']:
+                    continue
+            elif not frame_ok(name, direction, m, f):
                 continue
             frames.append(f)
             msgs.append(m)
